@@ -194,6 +194,32 @@ Proof.
   - rewrite Hstep by lia. destruct (N.testbit e i); [reflexivity|]. apply IH; lia.
 Qed.
 
+(* the same scan written as `for index in self.index..METADATA.len()`: the position is the loop variable, the
+   state [s] stays as it is until the loop is left *)
+Lemma scan_for {St X} (body : N -> St -> option (lctl St X)) (s : St) (hit : N -> lctl St X) e :
+  (forall j, j < 12 -> body j s = Some (if N.testbit e j then hit j else LNext s)) ->
+  (forall j, lctl_is_next (hit j) = false) ->
+  forall n i, i + N.of_nat n = 12 ->
+  for_list body (range_from i n) s
+  = Some (match e_find e n i with Some j => lctl_stop (hit j) | None => inl s end).
+Proof.
+  intros Hbody Hhit.
+  induction n as [|k IH]; intros i Hi; cbn [range_from for_list e_find]; [reflexivity|].
+  rewrite Hbody by lia. destruct (N.testbit e i); [|apply IH; lia].
+  specialize (Hhit i). destruct (hit i); try discriminate; reflexivity.
+Qed.
+
+Lemma scan_for0 {St} (body : N -> St -> option (bctl St)) (s : St) (hit : N -> St) e :
+  (forall j, j < 12 -> body j s = Some (if N.testbit e j then BBreak (hit j) else BNext s)) ->
+  forall n i, i + N.of_nat n = 12 ->
+  for_list0 body (range_from i n) s
+  = Some (match e_find e n i with Some j => hit j | None => s end).
+Proof.
+  intros Hbody.
+  induction n as [|k IH]; intros i Hi; cbn [range_from for_list0 e_find]; [reflexivity|].
+  rewrite Hbody by lia. destruct (N.testbit e i); [reflexivity|]. apply IH; lia.
+Qed.
+
 (* normalise a translated loop body applied to the state of a position *)
 Ltac scan_norm :=
   cbv beta iota zeta;
@@ -238,8 +264,23 @@ Ltac scan_side_of L tac :=
 (* goal: [<translated next> (mkEffIter i e) = e_next item e n i] under [Hi : i + N.of_nat n = 12] *)
 Ltac scan_next e n i Hi :=
   cbv zeta; cbn [ei_index ei_effects set_ei_index];
+  rewrite ?len_metadata;
+  try replace (N.to_nat (12 - i)) with n by lia;
   let L := fresh "L" in
   lazymatch goal with
+  | |- context [for_list ?f (range_from i n) ?s] =>
+      let step := fresh "step" in
+      set (step := f);
+      epose proof (scan_for step s _ e) as L;
+      scan_side_of L ltac:(scan_step_side step e);
+      scan_side_of L ltac:(intros; reflexivity);
+      specialize (L n i Hi); rewrite L; clear L
+  | |- context [for_list0 ?f (range_from i n) ?s] =>
+      let step := fresh "step" in
+      set (step := f);
+      epose proof (scan_for0 step s _ e) as L;
+      scan_side_of L ltac:(scan_step_side step e);
+      specialize (L n i Hi); rewrite L; clear L
   | |- context [while_fuel ?wf ?f ?s] =>
       let mkp := eval pattern i in s in
       lazymatch mkp with
